@@ -19,7 +19,7 @@ LEVEL_RULE = (
 EXHAUSTIVE_SUBDOMAINS = ["the 0.0005-degree grid over [-90,90] (360001 points, split over shards)"]
 ASSUMPTIONS = ["transition latitudes computed in double precision; cases within 1e-9 deg of one accept both neighbours",
                "Python implementation here; the C twin is compared on the same latitude set by C15"]
-REQUIRED = ["nl_1", "nl_2", "nl_59", "grid", "ulps", "window87", "float_after_equal_float32"]
+REQUIRED = ["nl_1", "nl_2", "nl_59", "grid", "cprgrid", "ulps", "window87", "float_after_equal_float32"]
 
 WINDOW_HI = 87.0 + 1e-8 + 1e-5 * 87 + 1e-9
 
@@ -137,6 +137,24 @@ def cases(ctx):
     for k in range(ctx.share(1500 if quick else 4000)):
         lats = sorted(rng.uniform(0, 90) for _ in range(250))
         yield "nl", {"kind": "random", "lats": lats, "sorted_abs": True}
+    # the latitudes the position decoders actually feed in: the CPR grid rows next to every transition (airborne and surface
+    # grids, even and odd format, both hemispheres) and next to the equator
+    if ctx.mine(i):
+        import math as _m
+        rows = set()
+        for par in (0, 1):
+            for q in (1.0, 4.0):
+                d_ = 360.0 / (60 - par) / q / 131072.0
+                for T_ in list(cpr.TRANS.values()) + [0.0]:
+                    j_ = _m.floor(T_ / d_)
+                    for dj in (-2, -1, 0, 1, 2, 3):
+                        x_ = (j_ + dj) * d_
+                        if 0.0 <= x_ <= 90.0:
+                            rows.add(x_)
+        rows = sorted(rows)
+        yield "nl", {"kind": "cprgrid", "lats": rows, "sorted_abs": True}
+        yield "nl", {"kind": "cprgrid", "lats": [-x_ for x_ in rows], "sorted_abs": True}
+    i += 1
     # argument types: integer latitudes are real latitudes too.  (Single-precision inputs are not judged NEAR transitions:
     # the closed form evaluated in float32 legitimately flips within ~1e-6 deg of one; away from them see "float32" below.)
     if ctx.mine(i):
